@@ -10,14 +10,17 @@ Three models (DESIGN Appendix B):
       a jump distance or bytecode) — Model/Structured.lean, Model/ParseS.lean.
 What is decided how:
   * VM run of `compileS st` = `evalS st` — THEOREM `compiled_code_means_what_the_source_says` (below), proved by
-    forward simulation (Proofs/StructSim.lean, `sim_all`) for every program of the structured fragment, every
-    machine, every fuel: same data stack, variables, output (everything but log/meter/ip) when the program
+    forward simulation (Proofs/StructSim.lean, `sim_all`) for every program of the structured fragment (control
+    structures, definitions, calls, recursion, locals, variables), every machine, every fuel: same data stack, variables, output (everything but log/meter/ip) when the program
     completes, or the same error at an instruction the debug map attributes to the same token;
   * `compileS (parseS toks)` = the flow-stack compiler's bytecode and debug map: checked per generated program
     by the driver (`C01 struct`, translation validation), not yet a theorem for all programs — this is the
     remaining gap between the theorem and the real compiler's output;
-  * definitions, calls, locals, `late`: executed by the faithful compiler + VM models under correspondence
-    (`C01 build` / `C01 eval`), outside `Stmt`.
+  * word definitions, calls (recursion included) and locals ARE in the structured fragment (stage 2): a call node
+    names the entry address of the callee and the return address the compiler assigns (the evaluator copies it into
+    the frame it pushes and never looks at it); the function table is read off the tree (`tabOf`), and the theorem
+    shows that it describes the code (`funsOf_ok`). Redefinition is the parser binding a name to the newest entry.
+    `late` binding and `immediate` words remain outside `Stmt` (faithful compiler + VM models, correspondence).
 Theorems here (all programs of the structured fragment, all machines, all fuel):
   * `compiled_code_means_what_the_source_says` — see above;
   * `counted_loop_leaves_no_index`, `completion_keeps_loops` — a terminated counted loop leaves the loop stack
@@ -41,36 +44,24 @@ namespace Xeh.C01
 open Xeh Xeh.Mach Xeh.Structured
 
 /-- the compositional compiler emits exactly `size st` opcodes, in every context -/
-theorem compileS_length (st : Stmt) : ∀ (bk : BK) (ce : Option Nat), (compileS st bk ce).length = size st := by
-  induction st with
-  | skip => intro _ _; rfl
-  | op t o => intro _ _; rfl
-  | seq a b iha ihb => intro bk ce; simp [compileS, size, iha, ihb]
-  | ifThen t a ih => intro bk ce; simp [compileS, size, ih]; omega
-  | ifElse t te a b iha ihb => intro bk ce; simp [compileS, size, iha, ihb]; omega
-  | untilLoop t a ih => intro bk ce; simp [compileS, size, ih]
-  | whileLoop tw tr c a ihc iha => intro bk ce; simp [compileS, size, ihc, iha]; omega
-  | repeatLoop tr a ih => intro bk ce; simp [compileS, size, ih]
-  | doLoop td tl a ih => intro bk ce; simp [compileS, size, ih]; omega
-  | brk t => intro bk ce; cases bk <;> rfl
-  | caseS a ih => intro bk ce; simp [compileS, size, ih]
-  | arm tOf tEndof body ih => intro bk ce; simp [compileS, size, ih]; omega
+theorem compileS_length (st : Stmt) (bk : BK) (ce : Option Nat) : (compileS st bk ce).length = size st :=
+  Structured.compileS_length st bk ce
 
 /-- a statement in a context where `break` is not allowed never evaluates to a travelling break -/
-theorem no_stray_break (np : String → Option Prog) (f : Nat) (st : Stmt) (m : Mach) (r : Bool)
-    (hw : WFS st false r = true) : NoBrk (evalS np f st m) := (no_brk_aux np f).1 st m r hw
+theorem no_stray_break (np : String → Option Prog) (F : FunTab) (f : Nat) (st : Stmt) (m : Mach) (r : Bool)
+    (hw : WFS st false r = true) : NoBrk (evalS np F f st m) := (no_brk_aux np F f).1 st m r hw
 
 /-- a counted loop absorbs every `break` of its body -/
-theorem counted_loop_never_breaks_out (np : String → Option Prog) (f : Nat) (tl : Nat) (a : Stmt) (m : Mach) :
-    NoBrk (doIter np f tl a m) := (no_brk_aux np f).2 tl a m
+theorem counted_loop_never_breaks_out (np : String → Option Prog) (F : FunTab) (f : Nat) (tl : Nat) (a : Stmt) (m : Mach) :
+    NoBrk (doIter np F f tl a m) := (no_brk_aux np F f).2 tl a m
 
 def NoOk (r : Res) : Prop := ∀ m, r ≠ .ok m
 
 /-- "a loop that structurally never terminates never falls through": `begin body repeat` whose body
     contains no `break` for this loop never completes normally — for every body, machine and amount of fuel
     (it fails, or it is still running when any finite budget is exhausted) -/
-theorem endless_repeat_never_falls_through (np : String → Option Prog) (tr : Nat) (a : Stmt)
-    (hw : WFS a false false = true) : ∀ (f : Nat) (m : Mach), NoOk (evalS np f (.repeatLoop tr a) m) := by
+theorem endless_repeat_never_falls_through (np : String → Option Prog) (F : FunTab) (tr : Nat) (a : Stmt)
+    (hw : WFS a false false = true) : ∀ (f : Nat) (m : Mach), NoOk (evalS np F f (.repeatLoop tr a) m) := by
   intro f
   induction f with
   | zero => intro m m' e; simp only [evalS] at e; cases e
@@ -80,13 +71,13 @@ theorem endless_repeat_never_falls_through (np : String → Option Prog) (tr : N
     split at e
     · exact ih _ m' e
     · rename_i t m1 hb
-      exact no_stray_break np f a m false hw t m1 hb
+      exact no_stray_break np F f a m false hw t m1 hb
     · rename_i r hne1 hne2
       exact hne1 m' e
 
 /-- `begin body false until` never completes normally either -/
-theorem endless_until_never_falls_through (np : String → Option Prog) (t t' : Nat) (a : Stmt) :
-    ∀ (f : Nat) (m : Mach), NoOk (evalS np f (.untilLoop t (.seq a (.op t' (.loadCell (.flag false))))) m) := by
+theorem endless_until_never_falls_through (np : String → Option Prog) (F : FunTab) (t t' : Nat) (a : Stmt) :
+    ∀ (f : Nat) (m : Mach), NoOk (evalS np F f (.untilLoop t (.seq a (.op t' (.loadCell (.flag false))))) m) := by
   intro f
   induction f with
   | zero => intro m m' e; simp only [evalS] at e; cases e
@@ -145,14 +136,18 @@ theorem endless_until_never_falls_through (np : String → Option Prog) (t t' : 
     any number of iterations, zero included, normally or by `break` — the loop stack is exactly the one before
     the loop (so `I` afterwards sees what it saw before; with the main theorem below the same holds of the VM,
     whose loop stack agrees with the evaluator's) -/
-theorem counted_loop_leaves_no_index (np : String → Option Prog) (f : Nat) (td tl : Nat) (a : Stmt) (m m' : Mach)
-    (hw : WFS a true false = true) (h : evalS np f (.doLoop td tl a) m = .ok m') : m'.loops = m.loops :=
-  Structured.counted_loop_leaves_no_index np f td tl a m m' hw h
+theorem counted_loop_leaves_no_index (np : String → Option Prog) (F : FunTab)
+    (hFw : ∀ addr body ts, F addr = some (body, ts) → WFS body false false = true)
+    (f : Nat) (td tl : Nat) (a : Stmt) (m m' : Mach)
+    (hw : WFS a true false = true) (h : evalS np F f (.doLoop td tl a) m = .ok m') : m'.loops = m.loops :=
+  Structured.counted_loop_leaves_no_index np F hFw f td tl a m m' hw h
 
 /-- every statement that completes leaves the loop stack as deep as it found it -/
-theorem completion_keeps_loops (np : String → Option Prog) (f : Nat) (st : Stmt) (m m' : Mach) (k r : Bool)
-    (hw : WFS st k r = true) (h : evalS np f st m = .ok m') : m'.loops.length = m.loops.length :=
-  (Structured.completion_keeps_loops np f st m m' k r hw h).1
+theorem completion_keeps_loops (np : String → Option Prog) (F : FunTab)
+    (hFw : ∀ addr body ts, F addr = some (body, ts) → WFS body false false = true)
+    (f : Nat) (st : Stmt) (m m' : Mach) (k r : Bool)
+    (hw : WFS st k r = true) (h : evalS np F f st m = .ok m') : m'.loops.length = m.loops.length :=
+  (Structured.completion_keeps_loops np F hFw f st m m' k r hw h).1
 
 /-! ### the compiled code means what the source says -/
 
@@ -162,7 +157,8 @@ def dmapOf (st : Stmt) : List Nat := (compileS st .none none).map (·.2)
 
 /-- **C01, main theorem (structured fragment).** Take any well-formed program `st` of the structured fragment
     (every nesting of literals, native words, variable loads/stores, if/else/then, case/of/endof/endcase,
-    begin/until, begin/while/repeat, begin/repeat, do/loop, break; empty bodies and zero-trip loops included),
+    begin/until, begin/while/repeat, begin/repeat, do/loop, break, word definitions, calls — recursive ones too —
+    and locals; empty bodies and zero-trip loops included) whose calls are placed (`placed`: what `parseS` checks),
     any machine `m` that holds its compiled code and stands at its first opcode, and any amount of fuel for
     the structural evaluator. Then the VM does what the evaluator says:
     * if the evaluator completes in `m'`, the VM — after finitely many successful steps — stands at the end
@@ -173,9 +169,9 @@ def dmapOf (st : Stmt) : List Nat := (compileS st .none none).map (·.2)
       fails with the same `e`, and the machine it leaves agrees with the evaluator's;
     * the evaluator never lets a `break` or a finished `of … endof` arm escape a whole program. -/
 theorem compiled_code_means_what_the_source_says (np : String → Option Prog) (st : Stmt) (f : Nat) (m : Mach)
-    (hw : WFS st false false = true) (hsize : size st < 2^62)
+    (hw : WFS st false false = true) (hpl : placed (tabOf st) st 0 = true) (hsize : size st < 2^62)
     (hcode : m.code = codeOf st) (hip : m.ctx.ip = 0) (hwf : WF m) (hlim : m.insnLimit = none) :
-    match evalS np f st m with
+    match evalS np (tabOf st) f st m with
     | .ok m' => ∃ n mv, C02.stepN np n m = some mv ∧ mv.ctx.ip = (codeOf st).length ∧ normX mv = normX m'
     | .err e tok m' => ∃ n mv mv', C02.stepN np n m = some mv ∧ step np mv = (.err e, mv') ∧ normX mv' = normX m' ∧
         (dmapOf st)[mv.ctx.ip]? = some tok
@@ -188,11 +184,21 @@ theorem compiled_code_means_what_the_source_says (np : String → Option Prog) (
   have hca : CodeAt (codeOf st) (dmapOf st) 0 (compileS st .none none) := by
     intro i hi
     simp [codeOf, dmapOf, List.getElem?_map, List.getElem?_eq_getElem hi]
-  have h := (sim_all np (codeOf st) (dmapOf st) (by rw [hl]; exact hsize) f).1 st .none none 0 m m
-    ⟨hwf, hlim, hcode⟩ (Rel.refl m) hip hca (by simpa using hw) trivial (by simp [hl])
-  have hne := (no_exit_aux np f).1 st m false hw
+  -- the function table read off the tree describes the code
+  have hF : FunsOK (codeOf st) (dmapOf st) (tabOf st) := by
+    intro addr body ts hFa
+    simp only [tabOf, Option.map_eq_some_iff] at hFa
+    obtain ⟨e, he, hb⟩ := hFa
+    have hmem := List.mem_of_find?_eq_some he
+    have haddr : e.1 = addr := by simpa using List.find?_some he
+    have := funsOf_ok (tabOf st) (codeOf st) (dmapOf st) st .none none 0 false false hca hw hpl e hmem
+    rw [hb] at this
+    simpa [haddr] using this
+  have h := (sim_all np (tabOf st) (codeOf st) (dmapOf st) (by rw [hl]; exact hsize) hF f).1 st .none none 0 m m
+    ⟨hwf, hlim, hcode⟩ (Rel.refl m) hip hca (by simpa using hw) trivial (by simp [hl]) hpl
+  have hne := (no_exit_aux np (tabOf st) f).1 st m false hw
   revert h hne
-  generalize evalS np f st m = r
+  generalize evalS np (tabOf st) f st m = r
   intro h hne
   cases r with
   | ok m' =>
